@@ -971,6 +971,13 @@ func (interp *Interpreter) cfg(root *node, sc *scope, importPath, pkgName string
 				// To avoid a copy in frame, if the result is to be assigned, store it directly
 				// at the frame location of destination.
 				dest := n.anc.child[childPos(n)-n.anc.nright]
+				if dest.typ != nil && isInterface(dest.typ) && !isInterface(n.typ) {
+					// The type of the operation is given by its operands (remainder, shift,
+					// comparison). Keep it and store the result in its own frame location:
+					// the assign operation performs the conversion to the interface type.
+					n.findex = sc.add(n.typ)
+					break
+				}
 				n.typ = dest.typ
 				n.findex = dest.findex
 				n.level = dest.level
@@ -2281,6 +2288,12 @@ func (interp *Interpreter) cfg(root *node, sc *scope, importPath, pkgName string
 				n.findex = notInFrame
 			case n.anc.kind == assignStmt && n.anc.action == aAssign && n.anc.nright == 1:
 				dest := n.anc.child[childPos(n)-n.anc.nright]
+				if n.action != aRecv && dest.typ != nil && isInterface(dest.typ) && !isInterface(n.typ) {
+					// Keep the type of the operand and store the result in its own frame
+					// location: the assign operation performs the conversion to the interface type.
+					n.findex = sc.add(n.typ)
+					break
+				}
 				n.typ = dest.typ
 				n.findex = dest.findex
 				n.level = dest.level
